@@ -3,6 +3,10 @@
 import json
 props=[json.loads(l) for l in open('/verif/properties.jsonl')]
 claimed={
+ "C16": dict(level="model_checking",
+   text="Two- and three-call histories run from SSA starting from the pristine package state (package initialisers executed by the engine, the resolution cache initialised through its real sync.Once from the real embedded meta-schemas): a call repeated after calls on other worlds that reuse the same document URLs with different content must give the same result and the same loader log; options are compared field-wise; the built-in meta-schemas must stay resolvable, unmodified and never requested.",
+   note="Trusted: as C02; M-sync sequential. Bounds: histories of 1-2 intervening calls, 4 call kinds.",
+   design="4 C16", technique="bounded symbolic execution of go/ssa over call histories + SMT (z3), counterexample replay"),
  "C09": dict(level="model_checking",
    text="ExpandSpec with SkipSchemas runs from SSA on worlds whose parameters, responses and path items are imported from other directories with schema references pointing back to the root, to their own and to a third document (all combinations); element-level $refs, untouched definitions, validity of rebased schema $refs from the root location, bisimilarity, and equality of a subsequent full expansion with the direct one are asserted.",
    note="Trusted: as C02. Bounds: 3 documents, 3 schema slots, 2 directory layouts.",
